@@ -162,6 +162,13 @@ func genBlob(r *rng.R, kind int, allowNul bool) []byte {
 }
 
 func scriptCase(c *Ctx, fam *report.Family, f string, configured [][2]string, label string, dir string, base *PkgSpec) {
+	scriptCaseRoute(c, fam, f, configured, label, dir, base, false)
+}
+
+// scriptCaseRoute: viaOverride = the scripts reach the packager the way a configuration with an override block hands
+// them over – every second configured script is set in the override block of the format, the others at top level, and
+// the effective settings come from Config.Get (a slot is populated iff its script is configured at either level).
+func scriptCaseRoute(c *Ctx, fam *report.Family, f string, configured [][2]string, label string, dir string, base *PkgSpec, viaOverride bool) {
 	paths := map[string]string{}
 	for i, kv := range configured {
 		p := filepath.Join(dir, fmt.Sprintf("script-%s-%d", f, i))
@@ -186,13 +193,47 @@ func scriptCase(c *Ctx, fam *report.Family, f string, configured [][2]string, la
 			setScript(info, sel, p)
 		}
 	}
-	data, err := BuildPkg(f, s.Info())
+	var data []byte
+	var err error
+	if viaOverride {
+		top := *base
+		top.Mutate = func(info *nfpm.Info) {
+			for i, kv := range configured {
+				if i%2 == 0 {
+					setScript(info, kv[0], paths[kv[0]])
+				}
+			}
+		}
+		over := &nfpm.Info{}
+		for i, kv := range configured {
+			if i%2 == 1 {
+				setScript(over, kv[0], paths[kv[0]])
+			}
+		}
+		cfg := &nfpm.Config{Info: *top.Info(), Overrides: map[string]*nfpm.Overridables{f: &over.Overridables}}
+		var gi *nfpm.Info
+		if gi, err = cfg.Get(f); err == nil {
+			data, err = BuildPkg(f, nfpm.WithDefaults(gi))
+		}
+	} else {
+		data, err = BuildPkg(f, s.Info())
+	}
 	var sels []string
 	for _, kv := range configured {
 		sels = append(sels, kv[0])
 	}
 	sort.Strings(sels)
 	in := map[string]any{"format": f, "configured": sels, "blobs": label}
+	if viaOverride {
+		var inBlock []string
+		for i, kv := range configured {
+			if i%2 == 1 {
+				inBlock = append(inBlock, kv[0])
+			}
+		}
+		in["set_in_the_override_block_of_the_format"] = inBlock
+		label += "|via-override-block"
+	}
 	fam.Eval(f+"|"+strings.Join(sels, ",")+"|"+label, len(configured) > 0)
 	fam.Count(fmt.Sprintf("%s:%d-scripts", f, len(configured)))
 	if err != nil {
@@ -262,7 +303,7 @@ func runC09(c *Ctx) error {
 	dir := filepath.Join(c.Tmp, "scripts")
 	_ = os.MkdirAll(dir, 0o755)
 	base := &PkgSpec{Raw: []wire.Content{{Src: filepath.Join(tree.Root, "bin/tool"), Dst: "/usr/bin/tool"}}, Umask: 0o022, MTime: 1700000000}
-	fam := c.Rep.Family("scripts", "every subset of the configurable script slots of each format (exhaustive: 2^7 deb, 2^7 rpm, 2^6 apk, 2^6 archlinux, 2^4 ipk) with pairwise distinct random script bodies, every second one configured through a symbolic link to the script file (shell text; binary without trailing newline; with NUL except rpm), plus empty-file and NUL-in-rpm edge cases; slots read back from control members / rpm tags / .INSTALL; non-trivial = at least one script configured")
+	fam := c.Rep.Family("scripts", "every subset of the configurable script slots of each format (exhaustive: 2^7 deb, 2^7 rpm, 2^6 apk, 2^6 archlinux, 2^4 ipk) with pairwise distinct random script bodies, every second one configured through a symbolic link to the script file (shell text; binary without trailing newline; with NUL except rpm), plus empty-file and NUL-in-rpm edge cases; every subset of two and more once again with every second script set in the format's override block and the effective settings taken from Config.Get; slots read back from control members / rpm tags / .INSTALL; non-trivial = at least one script configured")
 	fam.Exhaustive = true
 	r := c.R.Fork("c09")
 	rounds := c.N(1, 25)
@@ -278,6 +319,10 @@ func runC09(c *Ctx) error {
 					}
 				}
 				scriptCase(c, fam, f, conf, []string{"text", "binary"}[kind], dir, base)
+				// the same subset split between the top level and the format's override block (subsets of two and more)
+				if round == 0 && len(conf) >= 2 {
+					scriptCaseRoute(c, fam, f, conf, []string{"text", "binary"}[kind], dir, base, true)
+				}
 			}
 		}
 		// edge cases: empty script file, and NUL bytes in rpm
